@@ -1,63 +1,203 @@
 /-
-C04 proofs — lemmas used by the preservation proofs of `Reach`.
+C04 proofs — lemmas used by the preservation proofs of `Reach`: `Passed`, `Cur`, `Stale` / `Vf` under the updates a step
+makes; the registry suffix a walk has not yet synced; ancestors of registered contexts.
 -/
 import TbbVerif.Proofs.C04.ReachInv
 
 namespace TbbVerif.C04
 
-/-! ### `PassedUpTo` -/
+/-! ### `Passed` -/
 section passed
-variable {sk : Nat → Bool} {so : Nat → Nat} {m m' k a v : Nat}
+variable {sk so ps : Nat → Nat} {k k' a m b v w n0 : Nat}
 
-theorem passed_mono (h : m ≤ m') (hp : PassedUpTo sk so m a) : PassedUpTo sk so m' a := by
+theorem passed_mono (h : k ≤ k') (hp : Passed sk so ps k a m) : Passed sk so ps k' a m := by
   rcases hp with hp | ⟨n, h1, h2, h3⟩
   · exact Or.inl hp
   · exact Or.inr ⟨n, h1, by omega, h3⟩
 
-theorem passed_upd_src (h : m < k) : PassedUpTo sk (upd so k v) m a ↔ PassedUpTo sk so m a := by
-  unfold PassedUpTo
+/-- entries above `k` are invisible below `k` -/
+theorem passed_upd_src (h : k < n0) : Passed sk (upd so n0 v) (upd ps n0 w) k a m ↔ Passed sk so ps k a m := by
+  unfold Passed
   constructor
-  · rintro (hp | ⟨n, h1, h2, h3⟩)
+  · rintro (hp | ⟨n, h1, h2, h3, h4⟩)
     · exact Or.inl hp
-    · exact Or.inr ⟨n, h1, h2, by rwa [upd_ne (by omega)] at h3⟩
-  · rintro (hp | ⟨n, h1, h2, h3⟩)
+    · exact Or.inr ⟨n, h1, h2, by rwa [upd_ne (by omega)] at h3, by rwa [upd_ne (by omega)] at h4⟩
+  · rintro (hp | ⟨n, h1, h2, h3, h4⟩)
     · exact Or.inl hp
-    · exact Or.inr ⟨n, h1, h2, by rwa [upd_ne (by omega)]⟩
+    · exact Or.inr ⟨n, h1, h2, by rwa [upd_ne (by omega)], by rwa [upd_ne (by omega)]⟩
+
+theorem passed_below_bump (hle : k ≤ n0) (h : Passed sk (upd so (n0 + 1) v) (upd ps (n0 + 1) w) k a m) :
+    Passed sk so ps k a m :=
+  (passed_upd_src (by omega)).1 h
+
+theorem passed_below_bump' (hle : k ≤ n0) (h : Passed sk so ps k a m) :
+    Passed sk (upd so (n0 + 1) v) (upd ps (n0 + 1) w) k a m :=
+  (passed_upd_src (by omega)).2 h
 
 /-- one more propagation number -/
-theorem passed_succ : PassedUpTo sk so (m + 1) a ↔ so (m + 1) = a ∨ PassedUpTo sk so m a := by
-  unfold PassedUpTo
+theorem passed_succ : Passed sk so ps (k + 1) a m ↔ (so (k + 1) = a ∧ ps (k + 1) = m) ∨ Passed sk so ps k a m := by
+  unfold Passed
   constructor
   · rintro (hp | ⟨n, h1, h2, h3⟩)
     · exact Or.inr (Or.inl hp)
-    · by_cases e : n = m + 1
+    · by_cases e : n = k + 1
       · subst e; exact Or.inl h3
       · exact Or.inr (Or.inr ⟨n, h1, by omega, h3⟩)
   · rintro (hp | hp | ⟨n, h1, h2, h3⟩)
-    · exact Or.inr ⟨m + 1, by omega, by omega, hp⟩
+    · exact Or.inr ⟨k + 1, by omega, by omega, hp⟩
     · exact Or.inl hp
     · exact Or.inr ⟨n, h1, by omega, h3⟩
 
-/-- the epoch increment of a propagation with source `v` -/
-theorem passed_bump : PassedUpTo sk (upd so (m + 1) v) (m + 1) a ↔ v = a ∨ PassedUpTo sk so m a := by
-  rw [passed_succ, passed_upd_src (Nat.lt_succ_self m)]
+/-- the epoch increment of a propagation with source `v` and stamp `w` -/
+theorem passed_bump : Passed sk (upd so (k + 1) v) (upd ps (k + 1) w) (k + 1) a m ↔
+    (v = a ∧ w = m) ∨ Passed sk so ps k a m := by
+  rw [passed_succ, passed_upd_src (Nat.lt_succ_self k)]
   simp
 
-theorem passed_upd_skip : PassedUpTo (upd sk k true) so m a ↔ a = k ∨ PassedUpTo sk so m a := by
-  unfold PassedUpTo
-  simp only [upd_apply]
-  constructor
-  · rintro (hp | hp)
-    · split at hp
-      · exact Or.inl ‹_›
-      · exact Or.inr (Or.inl hp)
-    · exact Or.inr (Or.inr hp)
-  · rintro (hp | hp | hp)
-    · exact Or.inl (by simp [hp])
-    · exact Or.inl (by split <;> simp [hp])
-    · exact Or.inr hp
+theorem passed_pred {G : Nat} (h : k + 1 = G) (hp : Passed sk so ps G a m) :
+    (so G = a ∧ ps G = m) ∨ Passed sk so ps k a m := by
+  subst h
+  exact passed_succ.1 hp
+
+/-- a hint-test skip of `b` at stamp `w`: backwards -/
+theorem passed_upd_skip_back (h : Passed (upd sk b w) so ps k a m) : (a = b ∧ w = m) ∨ Passed sk so ps k a m := by
+  rcases h with h | h
+  · by_cases e : a = b
+    · subst e; simp at h; exact Or.inl ⟨rfl, h⟩
+    · rw [upd_ne e] at h; exact Or.inr (Or.inl h)
+  · exact Or.inr (Or.inr h)
+
+/-- forwards: what had passed still has, unless it was the skip entry of `b` that is being overwritten -/
+theorem passed_upd_skip_fwd (h : Passed sk so ps k a m) (hab : a ≠ b ∨ w = m) : Passed (upd sk b w) so ps k a m := by
+  rcases h with h | h
+  · by_cases e : a = b
+    · subst e
+      rcases hab with hab | hab
+      · exact absurd rfl hab
+      · exact Or.inl (by simp [hab])
+    · exact Or.inl (by rw [upd_ne e]; exact h)
+  · exact Or.inr h
+
+theorem passed_upd_skip_self : Passed (upd sk b w) so ps k b w := Or.inl (by simp)
+
+/-- stamps of what has passed are in the past -/
+theorem passed_le {clk : Nat} (hs : ∀ a, sk a ≤ clk) (hp : ∀ n, ps n ≤ clk) (h : Passed sk so ps k a m) : m ≤ clk := by
+  rcases h with h | ⟨n, _, _, _, h⟩
+  · exact h ▸ hs a
+  · exact h ▸ hp n
 
 end passed
+
+/-! ### `Cur` -/
+section cur
+variable {wst rst : Nat → Nat} {a m b y clk : Nat}
+
+theorem cur_wst (h : Cur wst rst a m) : wst a = m := h.1
+
+theorem cur_le (hw : ∀ a, wst a ≤ clk) (h : Cur wst rst a m) : m ≤ clk := h.1 ▸ hw a
+
+theorem cur_pos (h : Cur wst rst a m) : 1 ≤ m := by
+  have := h.2
+  omega
+
+/-- a winning exchange on `b` at clock `clk` -/
+theorem cur_upd_wst (h : Cur (upd wst b (clk + 1)) rst a m) : (a = b ∧ m = clk + 1) ∨ (a ≠ b ∧ Cur wst rst a m) := by
+  by_cases e : a = b
+  · subst e
+    have := h.1
+    simp at this
+    exact Or.inl ⟨rfl, this.symm⟩
+  · refine Or.inr ⟨e, ?_⟩
+    have h1 := h.1
+    rw [upd_ne e] at h1
+    exact ⟨h1, h.2⟩
+
+theorem cur_upd_wst_fwd (h : Cur wst rst a m) (e : a ≠ b) : Cur (upd wst b (clk + 1)) rst a m :=
+  ⟨by rw [upd_ne e]; exact h.1, h.2⟩
+
+/-- a reset of `y` at clock `clk` ends the current cancellation of `y` and leaves the others alone -/
+theorem cur_upd_rst (hw : ∀ a, wst a ≤ clk) (h : Cur wst (upd rst y (clk + 1)) a m) : a ≠ y ∧ Cur wst rst a m := by
+  by_cases e : a = y
+  · subst e
+    have h1 := h.1
+    have h2 := h.2
+    simp at h2
+    have := hw a
+    omega
+  · refine ⟨e, h.1, ?_⟩
+    have h2 := h.2
+    rwa [upd_ne e] at h2
+
+theorem cur_upd_rst_fwd (h : Cur wst rst a m) (e : a ≠ y) : Cur wst (upd rst y (clk + 1)) a m :=
+  ⟨h.1, by rw [upd_ne e]; exact h.2⟩
+
+end cur
+
+/-! ### `Stale` and `Vf` -/
+section vf
+variable {par : Nat → Option Nat} {can : Nat → Bool} {rst : Nat → Nat} {oc : Nat → Bool} {m a x p y e clk : Nat}
+
+theorem vf_can (h : can x = true) : Vf par can rst oc m a x := Or.inl h
+
+/-- an excused parent (below `a`) makes the child stale -/
+theorem stale_of_parent_exc (hp : par x = some p) (hpa : Anc par p a) (h : Exc rst oc m p) : Stale par rst oc m a x :=
+  Or.inr ⟨p, .direct hp, hpa, h⟩
+
+/-- staleness is inherited by children (below `a`) -/
+theorem stale_child (hp : par x = some p) (hpa : Anc par p a) (h : Stale par rst oc m a p) : Stale par rst oc m a x := by
+  rcases h with h | ⟨z, h1, h2, h3⟩
+  · exact stale_of_parent_exc hp hpa h
+  · exact Or.inr ⟨z, .step hp h1, h2, h3⟩
+
+theorem vf_upd_true (h : Vf par can rst oc m a x) : Vf par (upd can e true) rst oc m a x := by
+  rcases h with h | h
+  · exact Or.inl (by simp only [upd_apply]; split <;> simp [h])
+  · exact Or.inr h
+
+theorem vf_upd_true_self : Vf par (upd can x true) rst oc m a x := Or.inl (by simp)
+
+theorem exc_reset {z : Nat} (h : Exc rst oc m z) (hm : m ≤ clk) : Exc (upd rst y (clk + 1)) oc m z := by
+  rcases h with h | h
+  · refine Or.inl ?_
+    simp only [upd_apply]; split <;> omega
+  · exact Or.inr h
+
+theorem stale_reset (h : Stale par rst oc m a x) (hm : m ≤ clk) : Stale par (upd rst y (clk + 1)) oc m a x := by
+  rcases h with h | ⟨z, h1, h2, h3⟩
+  · exact Or.inl (exc_reset h hm)
+  · exact Or.inr ⟨z, h1, h2, exc_reset h3 hm⟩
+
+/-- a reset of `y` at clock `clk ≥ m` keeps every `Vf m` fact (for `y` itself it makes it true) -/
+theorem vf_reset (hm : m ≤ clk) (h : Vf par can rst oc m a x) :
+    Vf par (upd can y false) (upd rst y (clk + 1)) oc m a x := by
+  by_cases e : x = y
+  · subst e
+    exact Or.inr (Or.inl (Or.inl (by simp; omega)))
+  · rcases h with h | h
+    · exact Or.inl (by rw [upd_ne e]; exact h)
+    · exact Or.inr (stale_reset h hm)
+
+/-- `Vf` does not depend on the parent function beyond the ancestors it mentions -/
+theorem vf_par {par' : Nat → Option Nat} (hf : ∀ z b, Anc par z b → Anc par' z b) (h : Vf par can rst oc m a x) :
+    Vf par' can rst oc m a x := by
+  rcases h with h | h | ⟨z, h1, h2, h3⟩
+  · exact Or.inl h
+  · exact Or.inr (Or.inl h)
+  · exact Or.inr (Or.inr ⟨z, hf _ _ h1, hf _ _ h2, h3⟩)
+
+/-- more orphaned contexts only excuse more -/
+theorem vf_oc_or {b : Nat → Bool} (h : Vf par can rst oc m a x) : Vf par can rst (fun z => oc z || b z) m a x := by
+  have he : ∀ z, Exc rst oc m z → Exc rst (fun z => oc z || b z) m z := by
+    intro z hz
+    rcases hz with hz | hz
+    · exact Or.inl hz
+    · exact Or.inr (by simp [hz])
+  rcases h with h | h | ⟨z, h1, h2, h3⟩
+  · exact Or.inl h
+  · exact Or.inr (Or.inl (he _ h))
+  · exact Or.inr (Or.inr ⟨z, h1, h2, he _ h3⟩)
+
+end vf
 
 /-! ### the registry suffix that a walk has not yet synced -/
 
@@ -85,6 +225,14 @@ theorem drop_nil_of_none {reg : List Nat} {i : Nat} (h : reg[i]? = none) : reg.d
 
 theorem drop_nil_of_len {reg : List Nat} {i : Nat} (h : ¬ i < reg.length) : reg.drop i = [] :=
   List.drop_eq_nil_of_le (by omega)
+
+/-- a registered thread's list that the walk has not reached yet is still ahead after the walk moves on -/
+theorem nextList_walk_ahead {cfg : Cfg} {reg : List Nat} {act : Nat → Bool} {src i L : Nat} (hL : L ∈ reg.drop i)
+    (ha : act L = true) : ∃ j, (nextList cfg reg act src i).walkFrom = some j ∧ L ∈ reg.drop j := by
+  obtain ⟨j, hj, hd⟩ := nextList_ahead (cfg := cfg) (src := src) hL ha
+  exact ⟨j, by rw [hj]; rfl, hd⟩
+
+grind_pattern nextList_walk_ahead => nextList cfg reg act src i, L ∈ reg
 
 /-! ### ancestors of registered contexts are registered; their hints are set -/
 
